@@ -378,12 +378,15 @@ int main(int argc, char** argv) {
       // header and the sizes are logged, the payload is compared here
       size_t n = (size_t)c.num("n");
       const std::string kind = c.str("kind");
+      std::string linkedStore;  // outlives doc
       JsonDocument doc(&alloc);
       std::string payloadMp, payloadJson;
-      if (kind == "s") {
+      if (kind == "s" || kind == "sl") {
         std::string s(n, 'z');
         s[n / 2] = 'y';
-        doc.set(s);
+        // "sl": kept by address (const char*), the only way to a string longer than the length type holds
+        if (kind == "sl") { linkedStore = s; doc.set(linkedStore.c_str()); }
+        else doc.set(s);
         payloadMp = s;
         payloadJson = "\"" + s + "\"";
       } else if (kind == "a") {
